@@ -34,7 +34,10 @@ def run(tier, seed):
     # (a) graphs
     cases, total = G.generate(tier, seed)
     if tier == "quick":
-        cases = cases[:400]
+        # a mix of plain three-node graphs and the edge-context / root-site cases
+        g3 = [c for c in cases if len(c["nodes"]) == 3][:150]
+        ge = [c for c in cases if len(c["nodes"]) == 4]
+        cases = g3 + ge
     reach, modules = G.observe(d, cases)
     events.extend(modules)
     # (b) named types at every structural position
@@ -43,7 +46,8 @@ def run(tier, seed):
     named = [(i, rustgen.name_leaves(t)[0]) for i, t in enumerate(types)]
     for bi in range(0, len(named), 40):
         for mode in ("none", "zod"):
-            src, _ = rustgen.types_project(named[bi:bi + 40])
+            # no keep-alive command: a named type must be declared because the case itself reaches it
+            src, _ = rustgen.types_project(named[bi:bi + 40], keep_named=False)
             b, res, texts = PC.run_project(d, "t%d-%s" % (bi, mode), {"src/lib.rs": src}, mode=mode)
             if b:
                 ev = PC.modules_event(b, texts, "types%d-%s" % (bi, mode))
